@@ -65,6 +65,8 @@ type Segment struct {
 	RSShared int        `json:"rs_shared,omitempty"`
 	Phases   [][][]Call `json:"phases,omitempty"` // phase -> worker -> program
 
+	GCPct int  `json:"gc_pct,omitempty"` // percent of call boundaries before which the caller forces a garbage collection
+	Procs int  `json:"procs,omitempty"`  // GOMAXPROCS of the node process (0: default 2)
 	NoSim bool `json:"no_sim,omitempty"` // run the calls natively, without the simulator (input probing only; never used as an oracle)
 
 	// explicit replay: when Choices is non-nil the policy and stalls are ignored
